@@ -175,6 +175,40 @@ Definition update_page_table (s : store) (newroot : N) (name : string) : store *
   | Panic => (s, Panic)
   end.
 
+(* wal.go redoRootMove: the first live sys_pages row whose file_offset is oldroot is pointed
+   at newroot; the page is stamped with the LSN of the insert record being redone (no LSN is
+   consumed, nothing is logged). No matching row: nothing happens. *)
+Fixpoint pt_find_off (oldroot : N) (leaves : list tree) : res (option (N * leafcell * tuple)) :=
+  match leaves with
+  | [] => Ok None
+  | l :: r =>
+      (fix go (cs : list leafcell) : res (option (N * leafcell * tuple)) :=
+         match cs with
+         | [] => pt_find_off oldroot r
+         | c :: cr =>
+             if lc_deleted c then go cr else
+             do m <- decode_tuple pageTableSchema (lc_val c) [];
+             if value_eqb (tget "file_offset" m) (VInt (Z.of_N oldroot)) then Ok (Some (t_off l, c, m)) else go cr
+         end) (leaf_cells l)
+  end.
+
+Definition redo_root_move (s : store) (oldroot newroot lsn : N) : store * res unit :=
+  match (do pt <- get_tree s (ptRoot s);
+         do ls <- of_tres (scan_right_leaves pt);
+         pt_find_off oldroot ls) with
+  | Ok (Some (pg, c, m)) =>
+      match encode_tuple pageTableSchema (tset "file_offset" (VInt (Z.of_N newroot)) m) with
+      | Ok bs =>
+          if (MV <? length bs)%nat then (s, Err ERowTooLarge) else
+          (set_forest s (touch_forest pg (lc_key c) lsn (fun x => mkLC (lc_key x) (lc_deleted x) bs) (forest s)), Ok tt)
+      | Err e => (s, Err e)
+      | Panic => (s, Panic)
+      end
+  | Ok None => (s, Ok tt)
+  | Err e => (s, Err e)
+  | Panic => (s, Panic)
+  end.
+
 (* RelationService.Insert: one row *)
 Definition st_insert (s : store) (name : string) (cols : list string) (vals : list value)
   : store * res (list walentry) :=
